@@ -5,7 +5,7 @@ import XlVerif.Spec.C04
   `C04 eval <fuel> <cells> <ranges> <names> <addr>` → `impl=<result>  fresh=<result>  spec=<result>  trace=<addr,…>`
   `C04 hist <fuel> <cells> <ranges> <names> <ops>`  → `steps=<step>|<step>|…`
   `C04 hists <fuel> <cells> <ranges> <names> <ops>#<ops>#…` → `steps=<steps>#<steps>#…` (same initial workbook)
-      ops   : `s~<addr or name>~<value>` | `e~<addr or name>` | `g~<addr or name>`  joined by `|`
+      ops   : `s~<addr or name>~<value>` | `e~<addr or name>` | `g~<addr or name>` | `S~<addr>~<value>` | `G~<addr>` (XLCell object as the address)  joined by `|`
       steps : `s` | `e~<impl result>~<stored value after>~<spec result>` | `g~<value>`
     `impl` is the state machine `Model.C04.step` (the mutable model with all write-backs), `spec` is
     `Spec.C04.value` on a workbook that only saw the `set` calls.
@@ -13,22 +13,32 @@ import XlVerif.Spec.C04
 namespace XlVerif.Drv.C04
 open XlVerif XlVerif.Model.Evaluator XlVerif.Model.C04 XlVerif.Drv.EvalWire
 
-def opOfWire? (w : String) : Option Op :=
+/-- an API call as the harness issues it: `S` / `G` are `set_cell_value` / `get_cell_value` with an `XLCell` object -/
+inductive DOp
+  | plain (o : Op)
+  | setCell (a : Addr) (v : V)
+  | getCell (a : Addr)
+
+def opOfWire? (w : String) : Option DOp :=
   match w.splitOn "~" with
-  | ["s", a, v] => do pure (.set (← parseText? a) (← V.ofWire? v))
-  | ["e", a] => do pure (.eval (← parseText? a))
-  | ["g", a] => do pure (.get (← parseText? a))
+  | ["s", a, v] => do pure (.plain (.set (← parseText? a) (← V.ofWire? v)))
+  | ["e", a] => do pure (.plain (.eval (← parseText? a)))
+  | ["g", a] => do pure (.plain (.get (← parseText? a)))
+  | ["S", a, v] => do pure (.setCell (← parseText? a) (← V.ofWire? v))
+  | ["G", a] => do pure (.getCell (← parseText? a))
   | _ => none
 
 /-- run the history on the model (`m`) and on the reference inputs (`inp`) side by side -/
-def runHist (fuel : Nat) : MState → MState → List Op → List String
+def runHist (fuel : Nat) : MState → MState → List DOp → List String
   | _, _, [] => []
-  | m, inp, .set a v :: rest => "s" :: runHist fuel (step stdSem fuel m (.set a v)).1 (Spec.C04.setInput inp a v) rest
-  | m, inp, .eval a :: rest =>
+  | m, inp, .setCell a v :: rest => "s" :: runHist fuel (setCellValueH m (.cell a) v) (Spec.C04.setInput inp a v) rest
+  | m, inp, .getCell a :: rest => s!"g~{(getCellValueH m (.cell a)).wire}" :: runHist fuel m inp rest
+  | m, inp, .plain (.set a v) :: rest => "s" :: runHist fuel (step stdSem fuel m (.set a v)).1 (Spec.C04.setInput inp a v) rest
+  | m, inp, .plain (.eval a) :: rest =>
     let out := evaluate stdSem fuel m a
     let spec := Spec.C04.value Gen.maxEmpty stdSem fuel inp a
     s!"e~{resW out.2.1}~{(out.1.getCellValue a).wire}~{resW spec}" :: runHist fuel out.1 inp rest
-  | m, inp, .get a :: rest => s!"g~{(m.getCellValue a).wire}" :: runHist fuel m inp rest
+  | m, inp, .plain (.get a) :: rest => s!"g~{(m.getCellValue a).wire}" :: runHist fuel m inp rest
 
 def handle (fields : List String) : String :=
   match fields with
